@@ -1,5 +1,5 @@
 """Property -> rule instances (DESIGN section 4). Each entry is a function facts -> [RuleResult]."""
-from . import dim, atomic, tag, pair, canon, deleg, guard, table, wire, flow, sibling, algo_rules, rules5, rules6
+from . import dim, atomic, tag, pair, canon, deleg, guard, table, wire, flow, sibling, algo_rules, rules5, rules6, rules7
 
 ALGO_FILES = {
     "C09": ("src/algo/mod.rs",),
@@ -456,6 +456,7 @@ _R6 = [
     (("C11", "C07"), rules6.fw_diagonal_first, 2, None, "floyd_warshall initialises the self-distances before it enters the edge costs (a negative self-loop stays visible)"),
     (("C11", "C07"), rules6.fw_infinity_guard, 2, None, "floyd_warshall adds two legs only when neither is max() (unreachable stays unreachable)"),
     (("C11", "C07"), rules6.spfa_fifo, 2, None, "spfa's work list is FIFO (the |V|-visits bound behind its Err holds for that order only)"),
+    (("C11", "C07"), rules6.negcycle_last_relaxation, 3, None, "find_negative_cycle records the last relaxation (predecessor[j] = i) before it follows the chain from j"),
     (("C14",), rules6.scratch_grow_guard, 3, None, "causal_cones grows its scratch sets under len() < node_bound() only"),
     (("C15", "C07"), rules6.label_reset_whole, 2, None, "maximum_matching resets the whole label vector (dummy slot included)"),
     (("C16", "C07"), rules6.ap_no_disc_zero, 1, None, "articulation_points never branches on a discovery time compared with a constant"),
@@ -468,6 +469,39 @@ for _pids, _fn, _floor, _predf, _txt in _R6:
         _fl = _floor[_pid] if isinstance(_floor, dict) else _floor
         _pr = _predf(_pid) if _predf else (lambda f, s: True)
         PROPS[_pid]["rules"].append(sub(_cached("r6." + _fn.__name__, _fn), _pr, _fl))
+        if _pid != "C07":
+            PROPS[_pid]["decides"] += "; " + _txt
+
+# ---- round 7 (rules7)
+_R7 = [
+    (("C02", "C01", "C04"), rules7.who_consults_max, {"C01": 3, "C02": 1, "C04": 2},
+     lambda pid: {"C01": (lambda f, s: "graph_impl::" in f and "stable_graph" not in f), "C02": (lambda f, s: "stable_graph" in f), "C04": (lambda f, s: "matrix_graph" in f)}[pid],
+     "IndexType::max() is consulted only by the functions that implement the index-type limit"),
+    (("C04",), rules7.matrix_row_move, 2, None, "extend_flat_square_matrix moves row c to c * new capacity on both paths"),
+    (("C05",), rules7.csr_endpoint_bounds, 3, None, "Csr::add_edge_ tests both endpoints against node_count() before touching the storage"),
+    (("C07", "C09"), rules7.tarjan_reset, 2, None, "TarjanScc::run clears its table before resizing it"),
+    (("C08", "C09"), rules7.move_to_clears, 2, None, "move_to clears the stack on every path"),
+    (("C09", "C07"), rules7.bipartite_unfiltered, 2, None, "is_bipartite_undirected tests every neighbour's colour (no node-identity filter)"),
+    (("C12", "C07"), rules7.kruskal_all_edges, 2, None, "Kruskal queues every edge reference"),
+    (("C15",), rules7.who_uses_dummy, 4, None, "Matching's accessors never use the dummy index"),
+    (("C16", "C11", "C07"), rules7.fixpoint_flag_monotone, {"C16": 1, "C11": 1, "C07": 2},
+     lambda pid: {"C16": (lambda f, s: "dominators" in f), "C11": (lambda f, s: "bellman_ford" in f), "C07": (lambda f, s: True)}[pid],
+     "fixpoint flags are reset per sweep and only ever set inside it"),
+    (("C17",), rules7.graph_rejects_holes, 2, None, "Graph's reader rejects node holes (always-failing element reader wired into DeserGraph)"),
+    (("C18",), rules7.graph6_order_width, 3, None, "the graph6 order is never assembled in a type narrower than usize"),
+    (("C19",), rules7.try_equiv_validates, 2, None, "try_equiv looks both arguments up before any Ok"),
+    (("C20",), rules7.enumerate_is_index, 2, None, "page_rank enumerates the whole rank vector (positions are node indices)"),
+    (("C14",), rules7.who_touches_scratch, 3, None, "Acyclic's scratch bit sets are touched only by the cone DFS and construction"),
+    (("C03", "C06"), rules7.graphmap_remove_node_links, 3, None, "GraphMap::remove_node removes mirror entry and edge value for every link"),
+]
+for _pids, _fn, _floor, _predf, _txt in _R7:
+    for _pid in _pids:
+        _fl = _floor[_pid] if isinstance(_floor, dict) else _floor
+        _pr = _predf(_pid) if _predf else (lambda f, s: True)
+        _rule = sub(_cached("r7." + _fn.__name__, _fn), _pr, _fl)
+        if _fn is rules7.graph_rejects_holes:
+            _rule = _serde_only(_rule)
+        PROPS[_pid]["rules"].append(_rule)
         if _pid != "C07":
             PROPS[_pid]["decides"] += "; " + _txt
 
